@@ -157,4 +157,34 @@ CanonLaws(v) ==
   /\ b = LayoutImage(v, CanonLay(v))
 LayoutLaw(v, lay) ==
   LET b == LayoutImage(v, lay) IN ExactImage(b, v) /\ RefParsePack(b) = [ok |-> TRUE, v |-> v]
+
+\* ------------------------------------------------------------------ packs whose data section crosses 2^24 / 2^25 BYTES
+(* Such an image cannot travel to TLC.  The harness builds the value by rule - file i (0-based) is named "g<i>" and
+   its byte k is BodyByte(i, k) - and sends: lens, names, the image length, the header + entry table, the bytes found
+   at every recorded name address, the length and first / last 32 bytes of every recorded range as the image holds
+   it, and the same samples of what parse returned.  From the lengths alone the statement's conditions are decided:
+   count, names, sizes exact; every body 32-aligned, inside the file and disjoint from every other non-empty body;
+   the sampled bytes are the rule's; parse returned the value.  (Where names and bodies sit is not constrained.) *)
+BodyByte(i, k) == (k * 31 + i * 7 + (k \div 256)) % 256
+SampleOf(i, len) ==
+  LET m == IF len < 32 THEN len ELSE 32 IN
+  [len |-> len, first |-> [k \in 1..m |-> BodyByte(i, k - 1)], last |-> [k \in 1..m |-> BodyByte(i, len - m + k - 1)]]
+BigBodiesCheck(ev, what) ==
+  LET n == Len(ev.lens)  t == ev.table IN
+  CASE what = "header"  -> Len(t) = TableEnd(n) /\ SubSeq(t, 1, 4) = Magic /\ CountOf(t) = n /\ TableEnd(n) <= ev.len
+    [] what = "names"   -> \A i \in 1..n : EntryName(t, i) < ev.len /\ ev.names_at[i] = ev.names[i]
+    [] what = "sizes"   -> \A i \in 1..n : EntrySizeOf(t, i) = ev.lens[i]
+    [] what = "aligned" -> \A i \in 1..n : EntryFile(t, i) % Align = 0
+    [] what = "inside"  -> \A i \in 1..n : EntryFile(t, i) <= ev.len /\ EntryFile(t, i) + ev.lens[i] <= ev.len
+    [] what = "disjoint" -> \A i, j \in 1..n : (i < j /\ ev.lens[i] > 0 /\ ev.lens[j] > 0) =>
+                               \/ EntryFile(t, i) + ev.lens[i] <= EntryFile(t, j)
+                               \/ EntryFile(t, j) + ev.lens[j] <= EntryFile(t, i)
+    [] what = "bodies"  -> \A i \in 1..n : ev.bodies_at[i] = SampleOf(i - 1, ev.lens[i])
+    [] what = "parsed"  -> /\ DOMAIN ev.parsed = {"ok", "v"} /\ ev.parsed.ok /\ ev.parsed_equal
+                           /\ Len(ev.parsed.v) = n
+                           /\ \A i \in 1..n : ev.parsed.v[i] = <<ev.names[i], SampleOf(i - 1, ev.lens[i])>>
+BigBodiesFailed(ev) ==
+  IF ev.ser # "ok" THEN <<"serialize">>
+  ELSE IF ~BigBodiesCheck(ev, "header") THEN <<"header">>
+  ELSE SelectSeq(<<"names", "sizes", "aligned", "inside", "disjoint", "bodies", "parsed">>, LAMBDA w : ~BigBodiesCheck(ev, w))
 =============================================================================
